@@ -137,6 +137,10 @@ func NewType(t string) (*Type, error) {
 	if strings.ContainsAny(t, " \t\n\r") {
 		return nil, fmt.Errorf("node.NewType(%q) does not allow spaces", t)
 	}
+	if strings.ContainsAny(t, "<>") {
+		// A node is written /type<id>: the first '<' ends the type.
+		return nil, fmt.Errorf("node.NewType(%q) does not allow '<' or '>'", t)
+	}
 	if !strings.HasPrefix(t, "/") || strings.HasSuffix(t, "/") {
 		return nil, fmt.Errorf("node.NewType(%q) should start with a '/' and do not end with '/'", t)
 	}
